@@ -4,6 +4,7 @@
 //   (u) undef   (d) default   (b t|f)   (i N)   (f BITS)  IEEE-754 bits, decimal   (s xHEX)  string bytes
 //   (r xHEX) regexp source   (x xHEX) binary   (a v*) array   (h (k v)*) hash   (e k v) hash entry
 //   (mh (k v)*) a MutableHashValue built by NewMutableHash + Put (printed back as the hash with its entries)
+//   (ts NANOS) Timespan   (tm SECS NANOS) Timestamp (0 <= NANOS < 1e9)
 //   (sens v) sensitive   (t T) a type as a value, T one of
 //       (int lo hi)  (flt loBITS hiBITS)  str  any  undef  (enum ci xHEX*)  (arr T lo hi)  (var T*)  (tup (T*)) | (tup (T*) lo hi)
 //       (opt T)  (typ T)
@@ -16,7 +17,7 @@
 //   get H k      H.Get(k)                                                               → "some <value>" | "none"
 //   unique xs    Array.Unique                                                           → "(a v*)"
 //   @veq / @veq3 / @vkey / @vget / @vunique   implementation only: the same five ops over the value kinds that have no model
-//                counterpart: (ts NANOS) Timespan, (tm SECS NANOS) Timestamp, (uri xHEX) URI, (ver xHEX) SemVer
+//                counterpart: (uri xHEX) URI, (ver xHEX) SemVer (mixed with the modelled kinds)
 //   @teq s t / @teq3 s t u   implementation only: the same laws on types given as *type expressions* (hex strings parsed by
 //                c.ParseType), for the type kinds that have no model counterpart (String[n], Struct, Hash, Pattern, Callable …)
 // The property predicate is evaluated directly on the implementation for every op (see `exec`).
@@ -1024,6 +1025,8 @@ func universe() []sx.Sexp {
 		hv(fv(0), iv(1)), hv(fv(negZero), iv(1)), hv(hv(sv("a"), iv(1), sv("b"), iv(2)), iv(1)), hv(hv(sv("b"), iv(2), sv("a"), iv(1)), iv(1)),
 		ent(sv("a"), sv("b")), ent(av(), av()), ent(ent(iv(1), iv(2)), iv(3)),
 		sx.T("sens", sv("a")), av(sx.T("sens", iv(1))),
+		mk("(ts 0)"), mk("(ts 1000000000)"), mk("(ts 1500000000)"), mk("(ts -1500000000)"), mk("(ts 999999999)"), mk("(ts -999999999)"),
+		mk("(tm 0 0)"), mk("(tm 0 1)"), mk("(tm 1 0)"), mk("(tm 1 500000000)"), mk("(tm -1 999999999)"), av(mk("(ts 1000000000)")), hv(mk("(tm 1 0)"), iv(1)),
 		sx.T("mh"), sx.T("mh", sx.L(sv("a"), iv(1))), sx.T("mh", sx.L(sv("b"), iv(2)), sx.L(sv("a"), iv(1))), av(sx.T("mh", sx.L(sv("a"), iv(1)))),
 		tv("(int "+minS+" "+maxS+")"), tv("(int 1 "+maxS+")"), tv("(int "+minS+" 2)"), tv("(int 0 0)"),
 		tv("str"), tv("any"), tv("undef"), tv("(flt "+fbits(-math.MaxFloat64)+" "+fbits(math.MaxFloat64)+")"), tv("(flt "+fbits(1)+" "+fbits(2)+")"),
@@ -1121,7 +1124,11 @@ func randType(r *rand.Rand, depth int) string {
 }
 
 func randLeaf(r *rand.Rand) sx.Sexp {
-	switch r.Intn(12) {
+	switch r.Intn(14) {
+	case 12:
+		return sx.T("ts", sx.Int([]int64{0, 1, 999999999, 1000000000, 1500000000, -1, -1000000000, -1500000000, 86400000000000, math.MaxInt64, math.MinInt64}[r.Intn(11)]))
+	case 13:
+		return sx.T("tm", sx.Int([]int64{0, 1, -1, 1500000000, 253402300799}[r.Intn(5)]), sx.Int([]int64{0, 1, 500000000, 999999999}[r.Intn(4)]))
 	case 0:
 		return mk("(u)")
 	case 1:
@@ -1316,6 +1323,25 @@ func mutate(r *rand.Rand, e sx.Sexp) sx.Sexp {
 			return av(sv(s))
 		}
 		return sv(strings.ToUpper(s) + "\x00")
+	case "ts":
+		n := a[0].MustInt()
+		switch r.Intn(4) {
+		case 0: // within the same second (Equal: a Timespan is compared by whole seconds)
+			return sx.T("ts", sx.Int(n/1000000000*1000000000))
+		case 1:
+			return sx.T("ts", sx.Int(n^(1<<uint(r.Intn(40)))))
+		case 2:
+			return iv(n / 1000000000)
+		}
+		return sx.T("tm", sx.Int(n/1000000000), sx.Int(0))
+	case "tm":
+		switch r.Intn(3) {
+		case 0:
+			return sx.T("tm", a[0], sx.Int((a[1].MustInt()+1)%1000000000))
+		case 1:
+			return sx.T("tm", sx.Int(a[0].MustInt()+1), a[1])
+		}
+		return sx.T("ts", sx.Int(a[0].MustInt()))
 	case "x":
 		return sx.T("s", a[0])
 	case "r":
